@@ -3,6 +3,7 @@ memory (DESIGN 5/C09).  Files written by the real grammaroutput.pmcfg / rcg /
 lopar (API) and by real `treetools grammar` processes are decoded by the
 independent decoders of vt/codec.py; RCG files additionally by the tool's own
 reader (contract on grammarinput.rcg)."""
+import copy
 import os
 from collections import Counter
 
@@ -271,6 +272,7 @@ def run_api(ctx, case, rng):
     prefix = ctx.path('.gram')
     params = {'lex_in_grammar': True} if lig else {}
     exc = None
+    before = (copy.deepcopy(grammar), copy.deepcopy(lexicon))
     try:
         with common.captured():
             getattr(R.grammaroutput, fmt)(grammar, lexicon, prefix, enc,
@@ -311,6 +313,20 @@ def run_api(ctx, case, rng):
                 mech = 'rcg-own-reader-ignores-encoding'
             _fail(mech, diff(gl, lex))
             return
+    # the grammar and the lexicon are the caller's: after the files are written
+    # they are what they were, so that the same objects can be written again
+    # (another format, another place) or binarized afterwards
+    ctx.hook('grammar and lexicon compared after the writer call')
+    if (grammar, lexicon) != before:
+        what = 'grammar' if grammar != before[0] else 'lexicon'
+        if what == 'grammar':
+            d = diff(expected_counts(grammar), expected_counts(before[0]))
+        else:
+            d = diff(lcfrs.flatten_lex(lexicon), lcfrs.flatten_lex(before[1]))
+        _fail('%s-writer-changes-the-%s-it-was-given%s'
+              % (fmt, what, '-lex_in_grammar' if lig else ''),
+              'after the call vs before: %s' % d)
+        return
     finish(ctx, case, counts, lex, disc)
 
 
